@@ -96,6 +96,16 @@ func c01(c *Ctx) {
 			if g == nil {
 				continue
 			}
+			if c.Rng.Intn(12) == 0 {
+				// one nonterminal listed as two inputs: the front end must reject it (the generated package
+				// would declare its Parse method twice; before fix 544df62 it did not build)
+				in := g.Inputs[c.Rng.Intn(len(g.Inputs))]
+				if c.Rng.Intn(2) == 0 {
+					in.Eoi = !in.Eoi
+				}
+				g.Inputs = append(g.Inputs, in)
+				c.Count("grammar with a nonterminal used as two inputs")
+			}
 			o := TMOpts{ArrowPerRule: true, Optimize: c.Rng.Intn(2) == 0, Minimize: c.Rng.Intn(3) == 0, Markers: c.Rng.Intn(2) == 0}
 			o.DefaultReduce = o.Optimize && c.Rng.Intn(2) == 0
 			name := fmt.Sprintf("g%d", done+k)
